@@ -995,7 +995,7 @@ WITNESSES = [
 def main():
     ck = Check(PID)
     ck.proof_gate(["MirVerif.Props.C05"],
-                  support_modules=["MirVerif.Model.AbiX64", "MirVerif.Lemmas.AbiX64", "MirVerif.Lemmas.AbiX64Spec"],
+                  support_modules=["MirVerif.Model.AbiX64", "MirVerif.Lemmas.AbiX64", "MirVerif.Lemmas.AbiX64Run", "MirVerif.Lemmas.AbiX64Spec"],
                   exes=["mirdrv_c05"])
     srcs = ["harness/c05_harness.c", "harness/c05_probe.S", os.path.join(REPO, "mir.c"), os.path.join(REPO, "mir-gen.c")]
     exe = ck.cc("c05_harness", srcs, flags=["-O1", "-g", "-DNDEBUG", "-w"])
